@@ -22,15 +22,21 @@ import (
 // ---- C15 free-running pass (uninstrumented code, real goroutines, -race) ----
 
 func c15Free(c *mc.Check, reps int) {
-	f := c.Family("free-running-race-pass", fmt.Sprintf("SAMPLING (not exhaustive): the uninstrumented Builder.ToTables + ToText + ToCSV built with -race and run with real goroutines for GOMAXPROCS ∈ {1,2,4,16} × %d datasets × %d repetitions; every run's bytes must equal the first run's and the bytes the controlled pass produced for the default schedule (ties the instrumented build to the real one); any data race report fails the process; non-trivial = every run", len(c15Datasets), reps), nil)
+	f := c.Family("free-running-race-pass", fmt.Sprintf("SAMPLING (not exhaustive): the uninstrumented Builder.ToTables + ToText + ToCSV built with -race and run with real goroutines for GOMAXPROCS ∈ {1,2,4,16} × %d datasets × %d repetitions, and × 4 datasets whose cells hold 1023, 1024, 1025 and 4097 values in three columns (a tenth of the repetitions); every run's bytes must equal the first run's and the bytes the controlled pass produced for the default schedule (ties the instrumented build to the real one); any data race report fails the process; non-trivial = every run", len(c15Datasets), reps), nil)
 	if c.Replaying() {
 		return
 	}
 	f.Bounds["repetitions"] = reps
 	f.Capped("sampling by nature: free-running executions are not enumerated")
 	refDir := os.Getenv("VERIF_C15_REFDIR")
-	for _, ds := range c15Datasets {
+	large := c15LargeDatasets()
+	f.Bounds["large_cell_datasets"] = len(large)
+	for di, ds := range append(append([]c15Dataset{}, c15Datasets...), large...) {
 		var first string
+		reps := reps
+		if di >= len(c15Datasets) {
+			reps = max(3, reps/10)
+		}
 		for _, gmp := range []int{1, 2, 4, 16} {
 			old := runtime.GOMAXPROCS(gmp)
 			for r := 0; r < reps; r++ {
@@ -166,7 +172,7 @@ func c15Repeated(c *mc.Check) {
 	if c.Replaying() {
 		return
 	}
-	for _, ds := range c15Datasets {
+	for _, ds := range append(append([]c15Dataset{}, c15Datasets...), c15LargeDatasets()[:2]...) {
 		first := c15Body(ds)
 		for r := 1; r < 10; r++ {
 			f.Count(1, 1)
